@@ -10,3 +10,6 @@ def run(ctx):
     echcommon.run_family(ctx, ["MCEchHello_c04.cfg"], sample=3000 if ctx.quick else None, what="C04")
     # the retried-hello path: every history of EchConn.tla that ends in an abort (alert + close on Conn.Read)
     echcommon.echconn_slice(ctx, lambda c: any(o[0] == "abort" for o in c["outs"]), label="aborts")
+    # the retried hello as a proxy sees it (reader parked while the HelloRetryRequest is written): illegal second hellos
+    # are aborted there too
+    echcommon.echconn_slice(ctx, lambda c: any(c["hist"][i] == ["w", "HRR"] and c["hist"][i + 1][0] == "r" for i in range(len(c["hist"]) - 1)), label="hrr flights")
